@@ -301,3 +301,11 @@ func init() {
 		Eval:   c18Eval, Gen: c18Gen,
 	})
 }
+
+// decode a BootOrder value through the public accessor (the bootorder type is unexported)
+func bootOrderVia(order []byte) string {
+	files := fstest.MapFS{bootFile("BootOrder"): {Data: append([]byte{7, 0, 0, 0}, order...)}}
+	fs := testfs.NewTestFS().With(files).Open()
+	fs.GetBootOrder()
+	return "ok"
+}
